@@ -33,7 +33,7 @@ FLOORS = {"epochs_checked": {"quick": 1200, "thorough": 20000}, "readd_epochs": 
 BATCH = 15
 
 
-def gen_key_history(rng, start, end, universe):
+def gen_key_history(rng, start, end, universe, snapshots=False):
     """Returns cscript for a TSD<Int,TS<Int>> whose values encode key*1000+seq; never erases and re-adds a key in one cycle."""
     live = set()
     seq = {}
@@ -45,6 +45,17 @@ def gen_key_history(rng, start, end, universe):
     for t in times:
         ops = []
         touched = set()
+        if snapshots and len(live) >= 2 and rng.random() < 0.25:
+            # snapshot-style re-publication: the dictionary is cleared and the surviving keys are written again in the SAME cycle
+            # (a key removed and re-inserted within one cycle keeps its instance); the keys left out are really gone
+            gone = set(rng.sample(sorted(live), rng.choice([1, 1, 2]) if len(live) > 2 else 1))
+            ops.append("c")
+            for k in sorted(live - gone, key=lambda _: rng.random()):
+                seq[k] = seq.get(k, 0) + 1
+                ops.append(f"[{k}]={k * 1000 + seq[k] % 1000}")
+            live -= gone
+            out.append(f"{t}|" + ",".join(ops))
+            continue
         n = rng.choice([1, 1, 2, 3, 6]) if universe <= 12 else rng.choice([3, 10, 25])
         for _ in range(n):
             r = rng.random()
@@ -127,8 +138,9 @@ def gen_case10(rng, name, idx):
     c = Case(name, start, end)
     uid = UID(100)
     big = idx % 12 == 11
-    c.cscripts[1] = gen_key_history(rng, start, end, rng.choice([3, 5, 8]) if not big else 60)
     kind = rng.choice(["fn1", "fn1", "fn2", "fnk1", "fnk2"])
+    c.cscripts[1] = gen_key_history(rng, start, end, rng.choice([3, 5, 8]) if not big else 60,
+                                    snapshots=(kind != "fnk2" and not big and rng.random() < 0.35))
     c.meta["kind"] = kind
     main = [S("d", "csrc", shape="tsd", uid=1)]
     if kind == "fnk2":
@@ -280,18 +292,24 @@ def epochs_from_writes(wl, end):
     live = {}
     out = {}
     for t in sorted(wl):
+        gone_now = {}                  # removed earlier in THIS cycle: an insert of the same key revives the same instance
         for op in wl[t]:
             if op == "c":
                 for k, e in live.items():
                     e["stop"] = t
+                    gone_now[k] = e
                 live = {}
             elif op.startswith("x["):
                 k = int(op[2:op.index("]")])
                 if k in live:
-                    live.pop(k)["stop"] = t
+                    gone_now[k] = live.pop(k)
+                    gone_now[k]["stop"] = t
             else:
                 k = int(op[1:op.index("]")])
                 v = int(op[op.index("=") + 1:])
+                if k not in live and k in gone_now and gone_now[k]["start"] < t:
+                    live[k] = gone_now.pop(k)
+                    live[k]["stop"] = None
                 if k not in live:
                     live[k] = {"key": k, "start": t, "stop": None, "ticks": []}
                     out.setdefault(k, []).append(live[k])
